@@ -332,6 +332,15 @@ func genC09Case(rt *rapid.T, thorough bool) *c09Case {
 	return c
 }
 
+// tsFromSeed: a quarter of the inbound segments carry a timestamp at a wrap or
+// sign boundary of the 32-bit field, the rest an arbitrary one.
+func tsFromSeed(seed uint64) uint32 {
+	if seed%4 == 0 {
+		return specialTimestamps[(seed>>2)%uint64(len(specialTimestamps))]
+	}
+	return uint32(seed >> 8)
+}
+
 // inboundWire frames the inbound interleaving with the harness's own framer and
 // reports, per endpoint, how many of its segments precede the offending one.
 func (c *c09Case) inboundWire() (wire []byte, segStarts []int, before []int) {
@@ -350,7 +359,7 @@ func (c *c09Case) inboundWire() (wire []byte, segStarts []int, before []int) {
 		next[e]++
 		segStarts = append(segStarts, len(wire))
 		wire = append(wire, rawpeer.Frame(rawpeer.Seg{
-			Timestamp: uint32(c.In[e].Seeds[i]),
+			Timestamp: tsFromSeed(c.In[e].Seeds[i]),
 			ProtoID:   c.Eps[e].ID,
 			Response:  c.Eps[e].inDir(),
 			Payload:   c.In[e].payload(i),
@@ -818,7 +827,73 @@ func TestC09(t *testing.T) {
 		rec.SetExtra("newsegment_sizes_swept", 66001+2)
 	}
 
+	// deterministic boundary sweep on the lifecycle engine: ids 0 and 0x7fff in both
+	// roles plus a third protocol, every special payload size in both directions, write
+	// boundaries at header-1 / header / header+1 / 1 / end-1 of every segment, four
+	// read fragmentations, three write splittings of the muxer's own connection
+	{
+		n := 0
+		for _, deltas := range [][]int{{7}, {8}, {9}, {1, -1}, {7, 8, 9, -1}} {
+			for pi, chunks := range [][]int{nil, {1}, {7, 9}, {8}} {
+				split := [][]int{nil, {8, 70000}, {7, 70000}, {9, 70000}}[pi]
+				lc := lifeSweepCase(deltas, chunks, split, fmt.Sprintf("boundary sweep deltas=%v read-chunks=%v split=%v", deltas, chunks, split))
+				lc.Procs = runtime.GOMAXPROCS(0)
+				fails := runLifeCase(lc)
+				rec.Eval()
+				n++
+				rec.NonTrivial(lc.Label, lc.describe())
+				for _, f := range fails {
+					rec.Violation(f.key, f.what, f.cs)
+				}
+				c09Failed.Store(false)
+			}
+		}
+		rec.SetExtra("boundary_sweep_cases", n)
+		rec.SetExtra("boundary_sweep_payload_sizes", specialSegSizes)
+	}
+
 	rec.Check(func(rt *rapid.T) {
+		if rapid.IntRange(0, 9).Draw(rt, "lifecycle") < 3 {
+			lc := genLifeCase(rt)
+			procs, restore := setProcs(rt)
+			lc.Procs = procs
+			fails := runLifeCase(lc)
+			restore()
+			rec.Eval()
+			rec.Class("family_lifecycle")
+			rec.Class("life_final_" + lc.Final)
+			unreg, rereg := 0, 0
+			for _, st := range lc.Steps {
+				switch st.Kind {
+				case "unreg":
+					unreg++
+					if st.Ep < 2 {
+						rec.Class("life_unreg_one_role_of_shared_id")
+					}
+				case "rereg":
+					rereg++
+				}
+			}
+			if unreg > 0 {
+				rec.Class("life_with_unregister")
+			}
+			if rereg > 0 {
+				rec.Class("life_with_reregister")
+			}
+			if lc.CutDeltas != nil {
+				rec.Class("life_boundary_cuts")
+			}
+			if len(lc.Eps) >= 3 {
+				rec.Class("life_ge_3_endpoints")
+			}
+			d := lc.describe()
+			rec.NonTrivial(fmt.Sprintf("%v", d), d)
+			for _, f := range fails {
+				rec.Fail(rt, f.key, f.what, f.cs)
+			}
+			c09Failed.Store(false)
+			return
+		}
 		c := genC09Case(rt, rec.Thorough())
 		procs, restore := setProcs(rt)
 		c.Procs = procs
